@@ -15,7 +15,7 @@ import (
 )
 
 type modelObj struct {
-	kind string
+	kind    string
 	a, b, c []*Term // e.g. hkdf: secret, salt, info; hmac: key, msg
 	off     int
 }
